@@ -632,7 +632,7 @@ def describe_assignment_target(
                 # No known way to get here -- POP_TOP as sole insn is
                 # handled at the top of this function
                 stack.pop()
-            elif insn.opname in ("PRECALL", "CACHE"):
+            elif insn.opname in ("PRECALL", "CACHE", "PUSH_NULL"):
                 pass
             else:
                 raise ValueError(f"{insn.opname} in assignment target not supported")
